@@ -9,7 +9,11 @@ FixHop(h) == [h EXCEPT !.toks = FixToks(@), !.back = FixNodes(@)]
 VerdictM(rec) ==
   IF rec.k = "spans" THEN
      VerdictSpans([nodes |-> FixNodes(rec.nodes), hops |-> [k \in 1..Len(rec.hops) |-> FixHop(rec.hops[k])]])
-  ELSE IF rec.k = "balanced" THEN VerdictBalanced([nodes |-> FixNodes(rec.nodes)])
+  \* every caption a reader returns is judged on its own (an opening node in one caption is not
+  \* closed by an end node in the next)
+  ELSE IF rec.k = "balanced" THEN
+     (IF \A c \in 1..Len(rec.caps) : VerdictBalanced([nodes |-> FixNodes(rec.caps[c])]) = "ok"
+        THEN "ok" ELSE "ReaderReturnedUnbalancedStyleNodes")
   ELSE "UnknownRecordKind"
 VARIABLE i
 Init == i \in 1..Len(Cases)
